@@ -23,33 +23,60 @@ CONFIG = {'wide_bitvectors': True, 'symbolic_ops': False}
 INT_MUL = z3.Function('int_mul', z3.IntSort(), z3.IntSort(), z3.IntSort())
 INT_DIV_TRUNC = z3.Function('int_div_trunc', z3.IntSort(), z3.IntSort(), z3.IntSort())
 INT_DIV_FLOOR = z3.Function('int_div_floor', z3.IntSort(), z3.IntSort(), z3.IntSort())
+# numerator / denominator of a/b in lowest terms (num-rational reduces Ratio<u128> on construction)
+RED_NUM = z3.Function('reduced_numer', z3.IntSort(), z3.IntSort(), z3.IntSort())
+RED_DEN = z3.Function('reduced_denom', z3.IntSort(), z3.IntSort(), z3.IntSort())
+
+
+# terms known to be non-negative by construction (conversions from unsigned machine integers and sums / products /
+# quotients of such): sign normalisations and truncation-vs-floor case splits are skipped for them
+_NN = {}
+
+
+def mark_nn(t):
+    _NN[t.get_id()] = t
+    return t
+
+
+def is_nn(t):
+    if z3.is_int_value(t):
+        return t.as_long() >= 0
+    if z3.is_app(t) and t.decl().kind() == z3.Z3_OP_BV2INT:
+        return True
+    return t.get_id() in _NN
 
 
 def imul(a, b):
+    nn = is_nn(a) and is_nn(b)
     if not CONFIG['symbolic_ops']:
-        return a * b
+        t = a * b
+        return mark_nn(t) if nn else t
     from .interp import G
     t = INT_MUL(a, b)
     G.add(z3.And(z3.Implies(z3.And(a >= 0, b >= 0), t >= 0), (t == 0) == z3.Or(a == 0, b == 0)))
-    return t
+    return mark_nn(t) if nn else t
 
 
 def idiv_trunc(a, b):
+    nn = is_nn(a) and is_nn(b)
     if not CONFIG['symbolic_ops']:
-        return z3.If(z3.And(a >= 0, b > 0), a / b, trunc_div(a, b))
+        t = (a / b) if nn else z3.If(z3.And(a >= 0, b > 0), a / b, trunc_div(a, b))
+        return mark_nn(t) if nn else t
     from .interp import G
     t = INT_DIV_TRUNC(a, b)
     G.add(z3.Implies(z3.And(a >= 0, b > 0), t >= 0))
-    return t
+    return mark_nn(t) if nn else t
 
 
 def idiv_floor(a, b):
+    nn = is_nn(a) and is_nn(b)
     if not CONFIG['symbolic_ops']:
-        return a / b
+        t = a / b
+        return mark_nn(t) if nn else t
     from .interp import G
     t = INT_DIV_FLOOR(a, b)
     G.add(z3.Implies(z3.And(a >= 0, b > 0), t >= 0))
-    return t
+    return mark_nn(t) if nn else t
 
 
 def big(t):
@@ -121,7 +148,8 @@ def _big_arith(it, st, args, ctx):
     if op == 'mul':
         return big(imul(a, b))
     if op == 'add':
-        return big(a + b)
+        t = a + b
+        return big(mark_nn(t) if (is_nn(a) and is_nn(b)) else t)
     r = a - b
     if 'BigUint' in ctx.callee:
         return _panic_fork(it, st, r >= 0, big(r), 'BigUint subtraction underflow', ctx)
@@ -157,8 +185,8 @@ def _big_pow(it, st, args, ctx):
 @summary(r'^(num::)?(BigInt|BigUint)::sqrt$|^<(BigInt|BigUint) as (num::integer::)?Roots>::sqrt$')
 def _big_sqrt(it, st, args, ctx):
     a = ival(it, st, args[0])
-    s = fresh('isqrt', I)
-    outs = _panic_fork(it, st, a >= 0, big(s), 'sqrt of a negative BigInt', ctx)
+    s = mark_nn(fresh('isqrt', I))
+    outs = _panic_fork(it, st, z3.BoolVal(True) if is_nn(a) else a >= 0, big(s), 'sqrt of a negative BigInt', ctx)
     for s2, r in outs:
         if isinstance(r, Ret):
             s2.assume(z3.And(s >= 0, s * s <= a, a < (s + 1) * (s + 1)))
@@ -182,13 +210,15 @@ def _uint_sqrt(it, st, args, ctx):
 @summary(r'^(num::)?BigInt::to_biguint$')
 def _to_biguint(it, st, args, ctx):
     a = ival(it, st, args[0])
+    if is_nn(a):
+        return mk_some(big(a))
     return mk_option(a >= 0, big(a))
 
 
 @summary(r'^<&?(BigInt|BigUint) as TryInto<u128>>::try_into$')
 def _big_try_into_u128(it, st, args, ctx):
     a = ival(it, st, args[0])
-    ok = z3.And(a >= 0, a < TWO128)
+    ok = (a < TWO128) if is_nn(a) else z3.And(a >= 0, a < TWO128)
     return EnumV('Result', z3.If(ok, bv(0, 8), bv(1, 8)), {'Ok': (z3.Int2BV(a, 128),), 'Err': (Opaque('TryFromBigIntError'),)})
 
 
@@ -202,6 +232,8 @@ def _big_clone(it, st, args, ctx):
 
 def _ratio_new(it, st, n, d, ctx):
     # normalise the sign into the numerator so that den > 0 (as num-rational's reduce() does)
+    if is_nn(d):
+        return _panic_fork(it, st, d != 0, ratio(n, d), 'Ratio: denominator == 0', ctx)
     nn = z3.If(d < 0, -n, n)
     dd = z3.If(d < 0, -d, d)
     return _panic_fork(it, st, d != 0, ratio(nn, dd), 'Ratio: denominator == 0', ctx)
@@ -217,14 +249,20 @@ def _ratio_new_uint(it, st, args, ctx):
     # Ratio<u128> keeps machine integers; numer()/denom() are only ever converted to BigInt by the callers here.
     # reduce() divides both by their gcd: value-preserving, so the pair is kept as mathematical integers.
     n, d = z3.BV2Int(args[0], False), z3.BV2Int(args[1], False)
-    return _panic_fork(it, st, d != 0, Opaque('RatioU', (n, d, args[0].size())), 'Ratio: denominator == 0', ctx)
+    return _panic_fork(it, st, args[1] != 0, Opaque('RatioU', (n, d, args[0].size(), args[0], args[1])), 'Ratio: denominator == 0', ctx)
 
 
 @summary(r'^(num::rational::)?Ratio::<(u128|u64)>::(numer|denom)$')
 def _ratio_uint_parts(it, st, args, ctx):
     r = deref(it, st, args[0])
-    n, d, bits = r.data
+    n, d, bits = r.data[:3]
     # gcd-reduced parts: g fresh with n = g*n', d = g*d' -- callers only use the quotient n'/d', which equals n/d.
+    which = 'numer' if ctx.callee.endswith('numer') else 'denom'
+    if CONFIG['symbolic_ops']:
+        # unreduced parts: the only consumer (multiply_frac) rebuilds the same rational from numer / denom, and
+        # floor(x * n' / d') = floor(x * n / d) exactly when n'/d' = n/d; checks using this mode assert (on the MIR) that
+        # Ratio<u128>::numer / denom are not used anywhere else
+        return Ptr(st.alloc(r.data[3] if which == 'numer' else r.data[4]))
     tag = 'ratiou:' + n.sexpr() + '/' + d.sexpr()
     parts = st.notes.get(tag)
     if parts is None:
@@ -233,7 +271,7 @@ def _ratio_uint_parts(it, st, args, ctx):
         st.assume(z3.And(g >= 1, n == g * n2, d == g * d2, n2 >= 0, d2 >= 1, n2 <= n, d2 <= d))
         parts = (n2, d2)
         st.notes[tag] = parts
-    t = parts[0] if ctx.callee.endswith('numer') else parts[1]
+    t = parts[0] if which == 'numer' else parts[1]
     return Ptr(st.alloc(z3.Int2BV(t, bits)))
 
 
@@ -253,7 +291,7 @@ def _ratio_muldiv(it, st, args, ctx):
     (an, ad), (bn, bd) = rval(it, st, args[0]), rval(it, st, args[1])
     if ctx.callee.endswith('mul'):
         return ratio(imul(an, bn), imul(ad, bd))
-    n, d = an * bd, ad * bn
+    n, d = imul(an, bd), imul(ad, bn)
     return _ratio_new(it, st, n, d, ctx)
 
 
